@@ -405,19 +405,99 @@ Proof.
   rewrite <- (map_length g (h_cells w h0)). apply firstn_app_exact.
 Qed.
 
-(* ---- printf: the bytes vsnprintf produced are an input ---- *)
+(* ---- append with the source inside the own text ---- *)
+Lemma slice_firstn {A} (l : list A) n off len : off + len <= n -> slice (firstn n l) off len = slice l off len.
+Proof.
+  intros H. unfold slice. rewrite skipn_firstn_comm, firstn_firstn. f_equal. lia.
+Qed.
+
+Lemma append_tail w v h0 w1 b k l : Inv w -> nth_error (vars w) v = Some h0 ->
+  Inv w1 -> frame w w1 v -> owned_at w1 v b k -> blen k = length (h_cells w h0) ->
+  length (h_cells w h0) + length l <= bcap k ->
+  firstn (length (h_cells w h0)) (cells k) = h_cells w h0 ->
+  exists w', (do w2 <- v_write w1 v (length (h_cells w h0)) l;
+              v_setlen_term w2 v (length (h_cells w h0) + length l)) = Ok w' /\
+             upd_result w v (h_cells w h0 ++ l) w'.
+Proof.
+  intros I H I1 F1 O1 L1 C1 FC1. set (n := length (h_cells w h0)) in *.
+  destruct (block_ok_in _ _ _ I1 (proj1 (proj2 O1))) as (B1 & B2).
+  destruct (v_write_owned w1 v b k n l I1 O1) as (E2 & I2 & F2 & O2); [lia|]. rewrite E2. cbn [bind].
+  match type of O2 with owned_at ?w2 _ _ ?k2 =>
+    destruct (v_setlen_term_owned w2 v b k2 (n + length l) I2 O2) as (E3 & I3 & F3 & O3); [cbn; lia|] end.
+  rewrite E3. eexists. split; [reflexivity|].
+  split; [exact I3|]. split; [eapply frame_trans; [exact F1|eapply frame_trans; eauto]|].
+  exists (HBlock b). split; [apply O3|]. rewrite (owned_cells _ _ _ _ O3). cbn [blen cells].
+  rewrite firstn_app_le by (rewrite firstn_length, splice_length; lia).
+  rewrite firstn_firstn, Nat.min_id. rewrite firstn_splice_end by lia.
+  f_equal. exact FC1.
+Qed.
+
+Lemma append_own_ok w v h0 off len : Inv w -> nth_error (vars w) v = Some h0 ->
+  off + len <= length (h_cells w h0) ->
+  exists w', append_own w v off len = Ok w' /\ upd_result w v (h_cells w h0 ++ slice (h_cells w h0) off len) w'.
+Proof.
+  intros I H Hb. unfold append_own. rewrite (var_len_ok _ _ _ I H). cbn [bind].
+  destruct (length (h_cells w h0) <? off) eqn:G; [apply Nat.ltb_lt in G; lia|]. clear G.
+  destruct (detach_ok w v h0 (length (h_cells w h0)) (length (h_cells w h0) + len) I H)
+    as (w1 & b & k & E1 & I1 & F1 & O1 & L1 & C1 & FC1 & _); [lia|].
+  rewrite E1. cbn [bind]. rewrite (get_var_ok _ _ _ (proj1 O1)). cbn [bind].
+  destruct (block_ok_in _ _ _ I1 (proj1 (proj2 O1))) as (B1 & B2).
+  rewrite Nat.min_id, firstn_all in FC1.
+  (* the source, read in the buffer the String has now *)
+  assert (RD : d_read w1 (HBlock b) off len = Ok (slice (h_cells w h0) off len)).
+  { pose proof O1 as (_ & Eb & Rb). cbn [d_read]. unfold get_blk. rewrite Eb, Rb. cbn [Nat.eqb bind].
+    destruct (off + len <=? length (cells k)) eqn:EL; [|apply Nat.leb_gt in EL; lia].
+    f_equal. rewrite <- FC1. symmetry. apply slice_firstn. exact Hb. }
+  rewrite RD. cbn [bind]. rewrite (var_len_owned _ _ _ _ I1 O1), L1. cbn [bind].
+  assert (LS : length (slice (h_cells w h0) off len) = len) by (apply slice_length; exact Hb).
+  replace (length (h_cells w h0) + len) with (length (h_cells w h0) + length (slice (h_cells w h0) off len)) by (rewrite LS; reflexivity).
+  apply (append_tail w v h0 w1 b k); auto. lia.
+Qed.
+
+(* ---- printf: the bytes vsnprintf produces are an input that may depend on the OLD text ---- *)
 Lemma firstn_term_prefix (l : list Z) (rest : list (option Z)) :
   firstn (length l) (firstn 0 rest ++ (map Some l ++ [Some 0%Z]) ++ skipn (0 + length (map Some l ++ [Some 0%Z])) rest) = map Some l.
 Proof.
   cbn [firstn app]. rewrite <- app_assoc. rewrite <- (map_length Some l) at 1. apply firstn_app_exact.
 Qed.
 
-Lemma printf_ok w v h0 l : Inv w -> nth_error (vars w) v = Some h0 ->
-  exists w', exec w (OPrintf v l) = Ok (w', RInt (Z.of_nat (length l))) /\ upd_result w v (map Some l) w'.
+(* the data variable v had in world w can still be read, unchanged, in world w' *)
+Definition old_kept (w : world) (h0 : handle) (w' : world) : Prop :=
+  d_len w' h0 = Ok (length (h_cells w h0)) /\ d_read w' h0 0 (length (h_cells w h0)) = Ok (h_cells w h0).
+
+(* ... which holds while a temporary copy of v (index |vars w|) exists and only v is written:
+   the old data is a non-owning descriptor, or the block kept alive by the temporary *)
+Lemma old_kept_frame w v h0 w0 hc w' : Inv w -> nth_error (vars w) v = Some h0 ->
+  vars w0 = vars w ++ [hc] -> regs w0 = regs w -> keeps w w0 -> (forall b, h0 = HBlock b -> hc = h0) ->
+  Inv w' -> frame w0 w' v -> old_kept w h0 w'.
 Proof.
-  intros I H. cbn [exec].
-  destruct (detach_ok w v h0 0 200 I H) as (w1 & b & k & E1 & I1 & F1 & O1 & L1 & C1 & _); [lia|].
+  intros I Hv EV0 ER0 K0 SH0 I' F.
+  assert (Hvlt : v < length (vars w)) by (eapply nth_error_lt; eauto).
+  assert (Ht0 : nth_error (vars w0) (length (vars w)) = Some hc) by (rewrite EV0; apply nth_error_app_last).
+  assert (Hnt : length (vars w) <> v) by lia.
+  pose proof F as (_ & FR & FF). unfold old_kept.
+  destruct h0 as [|r off len|b0].
+  - rewrite <- (h_cells_nonblock w w' HEmpty) by (congruence || discriminate).
+    apply d_nonblock_ok; [constructor|discriminate].
+  - rewrite <- (h_cells_nonblock w w' (HView r off len)) by (congruence || discriminate).
+    apply d_nonblock_ok; [|discriminate]. cbn. rewrite FR, ER0. eapply inv_view; eauto.
+  - rewrite (SH0 b0 eq_refl) in Ht0. destruct (FF _ _ Hnt Ht0) as (A & B).
+    rewrite <- (K0 _ _ Hv), <- B. split; [eapply d_len_ok; eauto|eapply d_read_ok; eauto].
+Qed.
+
+Lemma printf_m_ok w v h0 fmt l : Inv w -> nth_error (vars w) v = Some h0 ->
+  (forall w', old_kept w h0 w' -> fmt w' = Ok l) ->
+  exists w', printf_m w v fmt = Ok (w', RInt (Z.of_nat (length l))) /\ upd_result w v (map Some l) w'.
+Proof.
+  intros I H FM. unfold printf_m.
+  assert (Hvlt : v < length (vars w)) by (eapply nth_error_lt; eauto).
+  destruct (push_copy_ok w v h0 I H) as (w0 & hc & E0 & I0 & EV0 & ER0 & K0 & HC0 & SH0). rewrite E0. cbn [bind].
+  assert (Hv0 : nth_error (vars w0) v = Some h0) by (rewrite EV0, nth_error_app1; auto).
+  assert (FMT : forall w', Inv w' -> frame w0 w' v -> fmt w' = Ok l).
+  { intros w' I' F'. apply FM. eapply (old_kept_frame w v h0 w0 hc w'); eauto. }
+  destruct (detach_ok w0 v h0 0 200 I0 Hv0) as (w1 & b & k & E1 & I1 & F1 & O1 & L1 & C1 & _); [lia|].
   rewrite E1. cbn [bind]. rewrite (v_block_owned _ _ _ _ O1). cbn [bind snd].
+  rewrite (FMT w1 I1 F1). cbn [bind].
   destruct (block_ok_in _ _ _ I1 (proj1 (proj2 O1))) as (B1 & B2).
   destruct (length l <? bcap k) eqn:G.
   - apply Nat.ltb_lt in G.
@@ -425,26 +505,33 @@ Proof.
       [rewrite app_length, map_length; cbn; lia|].
     rewrite E2. cbn [bind].
     destruct (v_setlen_ok w2 v b k2 (length l) I2 O2) as (w3 & k3 & E3 & I3 & F3 & O3 & C3 & L3 & P3); [lia|].
-    unfold ret. rewrite E3. cbn [bind]. eexists. split; [reflexivity|].
-    split; [exact I3|]. split; [eapply frame_trans; [exact F1|eapply frame_trans; eauto]|].
-    exists (HBlock b). split; [apply O3|].
-    rewrite (owned_cells _ _ _ _ O3), L3, C3, C2. apply firstn_term_prefix.
+    rewrite E3. cbn [bind].
+    destruct (pop_temp_ok w v w0 hc w3 (HBlock b) (map Some l) I Hvlt EV0 ER0 K0 I3) as (w4 & E4 & R4).
+    + eapply frame_trans; [exact F1|eapply frame_trans; eauto].
+    + apply O3.
+    + rewrite (owned_cells _ _ _ _ O3), L3, C3, C2. apply firstn_term_prefix.
+    + rewrite E4. cbn [bind]. eexists. split; [reflexivity|exact R4].
   - apply Nat.ltb_ge in G.
     destruct (v_write_ok w1 v b k 0 (map Some (firstn (bcap k - 1) l) ++ [Some 0%Z]) I1 O1) as (w2 & k2 & E2 & I2 & F2 & O2 & C2 & L2 & P2);
       [rewrite app_length, map_length, firstn_length; cbn; lia|].
     rewrite E2. cbn [bind].
+    assert (F02 : frame w0 w2 v) by (eapply frame_trans; eauto).
+    rewrite (FMT w2 I2 F02). cbn [bind].
     destruct (detach_ok w2 v (HBlock b) 0 (length l) I2 (proj1 O2)) as (w3 & b3 & k3 & E3 & I3 & F3 & O3 & L3 & C3 & _); [lia|].
     rewrite E3. cbn [bind].
+    assert (F03 : frame w0 w3 v) by (eapply frame_trans; eauto).
+    rewrite (FMT w3 I3 F03). cbn [bind].
     destruct (block_ok_in _ _ _ I3 (proj1 (proj2 O3))) as (B3 & B4).
     destruct (v_write_ok w3 v b3 k3 0 (map Some l ++ [Some 0%Z]) I3 O3) as (w4 & k4 & E4 & I4 & F4 & O4 & C4 & L4 & P4);
       [rewrite app_length, map_length; cbn; lia|].
     rewrite E4. cbn [bind].
     destruct (v_setlen_ok w4 v b3 k4 (length l) I4 O4) as (w5 & k5 & E5 & I5 & F5 & O5 & C5 & L5 & P5); [lia|].
-    unfold ret. rewrite E5. cbn [bind]. eexists. split; [reflexivity|].
-    split; [exact I5|].
-    split; [eapply frame_trans; [exact F1|eapply frame_trans; [exact F2|eapply frame_trans; [exact F3|eapply frame_trans; eauto]]]|].
-    exists (HBlock b3). split; [apply O5|].
-    rewrite (owned_cells _ _ _ _ O5), L5, C5, C4. apply firstn_term_prefix.
+    rewrite E5. cbn [bind].
+    destruct (pop_temp_ok w v w0 hc w5 (HBlock b3) (map Some l) I Hvlt EV0 ER0 K0 I5) as (w6 & E6 & R6).
+    + eapply frame_trans; [exact F03|eapply frame_trans; eauto].
+    + apply O5.
+    + rewrite (owned_cells _ _ _ _ O5), L5, C5, C4. apply firstn_term_prefix.
+    + rewrite E6. cbn [bind]. eexists. split; [reflexivity|exact R6].
 Qed.
 
 (* ---- queries: the view conversion keeps every value ---- *)
